@@ -140,6 +140,10 @@ func (dm *DagModifier) expandSparse(size int64) error {
 	if err != nil {
 		return err
 	}
+	// Ensure the new root doesn't exceed identity hash limits (as Sync does)
+	if pn, ok := nnode.(*mdag.ProtoNode); ok {
+		dm.ensureSafeProtoNodeHash(pn)
+	}
 	err = dm.dagserv.Add(dm.ctx, nnode)
 	if err != nil {
 		return err
@@ -840,6 +844,9 @@ func (dm *DagModifier) Truncate(size int64) error {
 	if err != nil {
 		return err
 	}
+	if pn, ok := nnode.(*mdag.ProtoNode); ok {
+		dm.ensureSafeProtoNodeHash(pn)
+	}
 
 	err = dm.dagserv.Add(dm.ctx, nnode)
 	if err != nil {
@@ -930,6 +937,10 @@ func (dm *DagModifier) dagTruncate(ctx context.Context, n ipld.Node, size uint64
 		ndata.AddBlockSize(childsize)
 	}
 
+	// The truncated child may have outgrown or still exceed the identity hash limit
+	if pn, ok := modified.(*mdag.ProtoNode); ok {
+		dm.ensureSafeProtoNodeHash(pn)
+	}
 	err = dm.dagserv.Add(ctx, modified)
 	if err != nil {
 		return nil, err
